@@ -76,6 +76,17 @@ def main(argv=None) -> int:
         from . import selftest
 
         st = selftest.run(pid, args.repo, seed)
+        if not os.environ.get("QSA_NOWRITE") and selftest.LAST_SUMMARY:
+            # the self-test outcome belongs to what this run covered
+            evp = os.path.join(os.path.dirname(os.path.dirname(os.path.abspath(__file__))), "evidence", f"{pid}.json")
+            try:
+                with open(evp, encoding="utf-8") as fh:
+                    evd = json.load(fh)
+                evd.setdefault("coverage", {})["checker_self_test"] = dict(selftest.LAST_SUMMARY)
+                with open(evp, "w", encoding="utf-8") as fh:
+                    json.dump(evd, fh, indent=1, ensure_ascii=False)
+            except (OSError, ValueError):
+                pass
         if st != 0:
             if selftest.tree_digest(args.repo) == selftest.reference_digest():
                 print(f"ANALYSIS-ERROR property={pid} self-test of the checker failed (checker weaker or noisier than claimed)")
